@@ -712,7 +712,9 @@ Definition toric_path_weight_statement : Prop :=
     tpath rows cols a b (tnew_pauli rows cols) = Some p -> tdistance rows cols a b = Some d ->
     Z.of_nat (bsf_wt (p_to_bsf p)) = d.
 Definition toric_path_weight_partial := toric_path_weight_le.
-(* C08 lower bound: every non-trivial normalizer element has weight >= min(rows, cols) *)
+(* C08 lower bound: every non-trivial normalizer element has weight >= min(rows, cols).
+   PROVED for all sizes in Lattice/ToricDistAll.v (toric_distance_lower_all, toric_is_distance_all); the statement is
+   kept here because this file is upstream of that proof. *)
 Definition toric_distance_lower_statement : Prop :=
   forall rows cols, 2 <= rows -> 2 <= cols ->
   forall e : bsf, length e = (toric_n rows cols + toric_n rows cols)%nat ->
